@@ -15,17 +15,19 @@ package file
 // below 2^62 in magnitude (listed as an arithmetic assumption).
 
 //@ func (*file.singleNodeFile).AsLargeBytes
+//@ at return ghost rpos(result) = 0
 //@ ensures no-load: loads == old(loads)
 //@ ensures err == nil && result != nil && fresh(result) && typeis(result, "*file.singleNodeReader")
 //@ ensures result.(*file.singleNodeReader).offset == 0 && result.(*file.singleNodeReader).Node == f
-//@ assigns nothing
+//@ assigns rpos(result)
 
 //@ func (*file.singleNodeReader).Seek
+//@ at return ghost rpos(f) = f.offset
 //@ domain no-wrap: -(1 << 62) < offset && offset < (1 << 62)
 //@ ensures load-error: nodeBytesErr(f.Node) != nil ==> err != nil && f.offset == old(f.offset)
 //@ ensures negative-target-is-error: nodeBytesErr(f.Node) == nil && seekTarget(whence, offset, old(f.offset), len(nodeBytes(f.Node))) < 0 ==> err != nil && f.offset == old(f.offset)
 //@ ensures lands-on-target: nodeBytesErr(f.Node) == nil && seekTarget(whence, offset, old(f.offset), len(nodeBytes(f.Node))) >= 0 ==> err == nil && result == seekTarget(whence, offset, old(f.offset), len(nodeBytes(f.Node))) && f.offset == result
-//@ assigns f.offset
+//@ assigns f.offset, rpos(f)
 
 //@ func (*file.singleNodeReader).Read
 //@ domain no-alias: base(p) != base(nodeBytes(f.Node))
@@ -37,10 +39,11 @@ package file
 //@ at return ghost drained(f) = drained(f) || err == io.EOF
 
 //@ func (*file.shardNodeFile).AsLargeBytes
+//@ at return ghost rpos(result) = 0
 //@ ensures no-load: loads == old(loads)
 //@ ensures err == nil && result != nil && fresh(result) && typeis(result, "*file.shardNodeReader")
 //@ ensures result.(*file.shardNodeReader).offset == 0 && result.(*file.shardNodeReader).rdr == nil && result.(*file.shardNodeReader).shardNodeFile == s
-//@ assigns nothing
+//@ assigns rpos(result)
 
 // flen(s) is DEFINED as what length() reports when it succeeds (clause defines-flen, assumed). What
 // is proved about it: measuring a node whose children declare their sizes requests no block; a block
@@ -69,6 +72,7 @@ package file
 //@ loop 0 invariant no-unreported-failure: loadFailed == old(loadFailed)
 
 //@ func (*file.shardNodeReader).Seek
+//@ at return ghost rpos(s) = s.offset
 //@ ensures seeking-requests-no-block: whence != 2 || sizesDeclared(s.shardNodeFile) ==> loads == old(loads)
 //@ domain no-wrap: -(1 << 62) < offset && offset < (1 << 62) && -(1 << 62) < s.offset && s.offset < (1 << 62) && -(1 << 62) < flen(s.shardNodeFile) && flen(s.shardNodeFile) < (1 << 62)
 //@ domain links-is-a-list: isList(lookupStr(s.shardNodeFile.substrate, "Links"))
@@ -146,12 +150,13 @@ package file
 //@ ensures declared-sizes-need-no-reader: sizesDeclared(s) ==> result1 == nil && loads == old(loads)
 //@ assumed defines-declSize declared-sizes-need-no-reader
 //@ ensures a-reader-handed-back-is-new: result1 != nil ==> fresh(result1)
+//@ ensures a-reader-handed-back-is-rewound: result1 != nil && err == nil ==> rpos(result1) == 0
 //@ ensures the-reader-handed-back-is-the-childs-own: result1 != nil ==> isFileReader(result1)
 //@ ensures iterators-are-left-alone: forall it Ref :: itpos(it) == old(itpos(it)) && itlen(it) == old(itlen(it))
 //@ inst iterators-are-left-alone: it: it
 //@ ensures no-reader-no-request: result1 == nil && err == nil ==> loads == old(loads)
 //@ ensures load-failure-is-returned: err == nil ==> loadFailed == old(loadFailed)
-//@ assigns file.shardNodeFile.metadata, file.shardNodeFile.unpackLk, loads, loadFailed
+//@ assigns file.shardNodeFile.metadata, file.shardNodeFile.unpackLk, loads, loadFailed, lastLoadErr, rpos(result1)
 
 //@ func (*file.shardNodeReader).makeReader
 //@ loop 0 invariant skipped-children-are-not-opened: len(readers) == 0 ==> loads == old(loads)
@@ -169,6 +174,9 @@ package file
 //@ inst one-reader-object-per-child: rb: rb
 //@ loop 0 invariant children-are-read-through-their-own-readers: forall rk int :: 0 <= rk && rk < len(readers) ==> isFileReader(readers[rk]) && live(readers[rk]) && readers[rk] != nil
 //@ inst children-are-read-through-their-own-readers: rk: rk
+//@ loop 0 invariant later-children-are-read-from-their-start: forall rq int :: 0 < rq && rq < len(readers) ==> rpos(readers[rq]) == 0
+//@ inst later-children-are-read-from-their-start: rq: rq
+//@ inst later-children-are-read-from-their-start: rk: rq
 //@ loop 0 invariant first-reader: (len(readers) == 0 ==> s.offset >= at) && (len(readers) > 0 ==> s.offset <= at)
 //@ loop 0 invariant offset-unchanged: s.offset == old(s.offset) && s.shardNodeFile == old(s.shardNodeFile)
 //@ at call (io.Seeker).Seek#1 assert fast-forward-inside-first-child: len(readers) == 0 && callee_whence == 0 && callee_offset == s.offset - at && 0 < callee_offset && callee_offset < childSize
@@ -188,16 +196,17 @@ package file
 //@ assigns nothing
 
 //@ func (*file.deferred).AsLargeBytes
+//@ at return ghost rpos(result) = 0
 //@ ensures err == nil && result != nil && fresh(result)
 //@ ensures a-lazily-resolved-reader: typeis(result, "*file.deferredReader")
 //@ ensures no-load: loads == old(loads)
-//@ assigns nothing
+//@ assigns rpos(result)
 
 // ---------------------------------------------------------------------------------------------
 // C12 / C04: a lazily resolved child. A failed load is returned as the error of the Read / Seek that
 // needed it (never masked as EOF, never swallowed) and leaves the node unresolved so that a later
 // call tries again; a successful resolve requests exactly one block.
-//@ props C04 C05 C06 C12
+//@ props C04 C05 C06 C12 C20
 
 //@ func (*file.deferredFileNode).resolve
 //@ ensures failure-leaves-it-unresolved: err != nil ==> d.lsys == old(d.lsys) && d.root == old(d.root) && d.LargeBytesNode == old(d.LargeBytesNode)
@@ -211,6 +220,7 @@ package file
 //@ ensures stays-unresolved-on-error: old(d.ReadSeeker) == nil && d.ReadSeeker == nil ==> err != nil && result == 0
 
 //@ func (*file.deferredReader).Seek
+//@ at return ghost rpos(d) = ite(err == nil, result, rpos(d))
 //@ ensures resolve-error-is-returned: old(d.ReadSeeker) == nil && d.ReadSeeker == nil ==> err != nil
 
 //@ func (*file.shardNodeReader).Read
